@@ -151,7 +151,20 @@ def king_instances(ob, tier, seed):
     """instances of a per-king-square family: list of (suffix, colour, square); `gen=range:N` gives (i, 0, i) for i < N"""
     if ob.gen.startswith("range:"):
         n = int(ob.gen.split(":")[1])
-        return [("i%02d" % i, 0, i) for i in range(n)]
+        allr = [("i%02d" % i, 0, i) for i in range(n)]
+        if tier == "thorough" or not ob.qsel:
+            return allr
+        k = int(ob.qsel)
+        # always the two extreme instances, the rest rotated by the seed
+        idx = [0, n - 1]
+        j = seed % n
+        while len(idx) < k:
+            j = (j * 5 + 3) % n
+            if j not in idx:
+                idx.append(j)
+            else:
+                j += 1
+        return [allr[i] for i in sorted(idx)]
     allv = [(("w" if c == 0 else "b") + "_" + SQN[s], c, s) for c in (0, 1) for s in range(64)]
     if tier == "thorough" or not ob.qsel:
         return allv
